@@ -111,8 +111,42 @@ def hkind : P (Nat → HM HRes) := do
   | "genrekeyike" => pure fun now => asRequest (generateRekeyIkeSaRequest now)
   | _ => failure
 
+/-- what one loop iteration shows: entries (with the objects behind them), datagrams, netlink requests, oracle values left, status,
+    and the kernel after the round -/
+def renderIter (w : XWorld) (o : IterOut) (sad : List Key) (tapeLeft : Nat) : String :=
+  let rEnt := fun (s : Sa) =>
+    rSaIn o.ctl.sas s ++ rOpt rExt (w.extOf s.core.mySpi) ++
+      rOpt rExt (match s.succ with | some n => if registered o.ctl.sas n then none else w.extOf n.mySpi | none => none)
+  join ([rB o.escaped, toString o.ran] ++ rList rEnt o.ctl.sas ++
+    rList (fun (x : Bytes × Bytes × Msg) => [hexOut x.1, hexOut x.2.1] ++ rMsg x.2.2) o.sent ++ rList rNl o.nl ++
+    [toString (w.tape.vals.length - tapeLeft), rB (w.tape.bad || w.clash)] ++
+    rOpt (fun l => rList (fun (s : Sa) => [hexOut s.core.mySpi, toString s.core.st]) l) o.status ++
+    rList rKey (o.nl.foldl applyNl sad))
+
 def cmd (c : String) (args : List String) : Option String :=
   match c with
+  | "xrun" => do
+      -- several rounds in a row, the model carrying its own state from round to round (`wholeStep2`); the oracle values of all
+      -- rounds are one tape
+      let ((thr, confs, ents, sad, rounds), left) ← (do
+        let thr ← nat
+        let confs ← listOf (do let a ← hex; let b ← hex; let c ← conf; pure (a, b, c))
+        let ents ← listOf (do let x ← xsa; let s ← optOf xsa; pure (x, s))
+        let sad ← listOf key
+        let rounds ← listOf (do let now ← nat; let ev ← event; let tape ← listOf tval; pure (now, ev, tape))
+        pure (thr, confs, ents, sad, rounds) : P _).run args
+      if left ≠ [] then none else
+      let sas : List Sa := ents.map fun (x, s) => { core := x.core, succ := s.map (·.core) }
+      let exts := ents.flatMap fun (x, s) => (x.core.mySpi, x.ext) :: (match s with | some n => [(n.core.mySpi, n.ext)] | none => [])
+      let total := (rounds.map fun r => r.2.2.length).sum
+      let w0 : XWorld := { tape := { vals := rounds.flatMap fun r => r.2.2 }, exts := exts, confs := confs, sad := sad }
+      let res := rounds.foldl (fun (acc : (XWorld × Ctl) × Nat × List String) r =>
+          let wc := acc.1
+          let used := acc.2.1 + r.2.2.length
+          let (w1, o) := loopIter concreteHandlers wc.1 wc.2 r.1 r.2.1
+          (wholeStep2 wc (r.1, r.2.1), used, acc.2.2 ++ [renderIter w1 o wc.1.sad (total - used)]))
+        ((w0, ({ sas := sas, threshold := thr } : Ctl)), 0, [])
+      pure (String.intercalate " | " res.2.2)
   | "hcall" => do
       let ((now, me, succ, h, tape, sad), left) ← (do
         let now ← nat; let me ← xsa; let succ ← optOf xsa; let h ← hkind; let tape ← listOf tval; let sad ← listOf key
@@ -132,13 +166,7 @@ def cmd (c : String) (args : List String) : Option String :=
       let exts := ents.flatMap fun (x, s) => (x.core.mySpi, x.ext) :: (match s with | some n => [(n.core.mySpi, n.ext)] | none => [])
       let w : XWorld := { tape := { vals := tape }, exts := exts, confs := confs, sad := sad }
       let (w, o) := loopIter concreteHandlers w { sas := sas, threshold := thr } now ev
-      let rEnt := fun (s : Sa) =>
-        rSaIn o.ctl.sas s ++ rOpt rExt (w.extOf s.core.mySpi) ++
-          rOpt rExt (match s.succ with | some n => if registered o.ctl.sas n then none else w.extOf n.mySpi | none => none)
-      pure (join ([rB o.escaped, toString o.ran] ++ rList rEnt o.ctl.sas ++
-        rList (fun (x : Bytes × Bytes × Msg) => [hexOut x.1, hexOut x.2.1] ++ rMsg x.2.2) o.sent ++ rList rNl o.nl ++
-        [toString w.tape.vals.length, rB (w.tape.bad || w.clash)] ++ rOpt (fun l => rList (fun (s : Sa) => [hexOut s.core.mySpi, toString s.core.st]) l) o.status ++
-        rList rKey (o.nl.foldl applyNl sad)))
+      pure (renderIter w o sad 0)
   | _ => none
 
 end PyIkev2.HandlersCmd
